@@ -22,7 +22,9 @@ def make_cases(tier, rng):
                       # entries of the offered list that are not numbers: ignored, reported on stderr, never on stdout
                       "offered_junk": rng.sample(["", " 2", "v1", "two", "1.0", "0x1"], rng.choice([0, 0, 1, 2])),
                       # somebody connects to the socket before the line is out (every third case)
-                      "early_connect": len(cases) % 3 == 1})
+                      "early_connect": len(cases) % 3 == 1,
+                      # the plugin's own code prints as soon as it serves (every other case)
+                      "prints": len(cases) % 2 == 0})
     # every cookie combination (with a random serve configuration each)
     for cc in CCFG:
         for ce in CENV:
